@@ -12,7 +12,7 @@ RULE = ("(a) enumerated: every unordered pair of calls from the menu {store_obje
         "store_object(q,X), store_object(None,X), tag_object(p,cidX), tag_object(q,cidX), delete_object(p), "
         "delete_object(q), delete_if_invalid_object(X, wrong), delete_if_invalid_object(X, right)} x 6 start "
         "states {empty, p=X, p=X and q=X, X unreferenced, r=X, p=Y}, each run as 2 threads under EVERY schedule with "
-        "<=1 preemption (quick) / <=2 preemptions (thorough), preemption points = every file-system operation, "
+        "<=1 preemption (quick; <=2 for the six most contended pairs) / <=2 preemptions (thorough), preemption points = every file-system operation, "
         "lock acquisition and condition wait of the owned scheduler; (b) Hypothesis: 3-thread programs over the "
         "same menu with a generated schedule of <=4 preemptions. Oracle: the (per-call outcome vector, abstract "
         "final state) must equal that of SOME sequential order of the same calls run on a copy of the start "
@@ -85,9 +85,11 @@ def enumerate_cases(tier):
         for a in holds:
             yield dict(BASE, start_name="hwp:" + fam, start=start, calls=[h, w, p], mode="gen", order=[0, 1, 2],
                        preemptions=[list(x) for x in hwp_preemptions(a)], family="holder-waiter-passer-by")
+    # quick tier: the six most contended pairs already get every schedule with <=2 preemptions
+    DEEP = {("p=X", 2, 6), ("r=X", 4, 6), ("empty", 0, 1), ("p=X,q=X", 6, 7), ("p=X", 5, 6), ("p=X", 0, 6)}
     for sname in STARTS:
         for a, b in itertools.combinations_with_replacement(range(len(MENU)), 2):
-            two = tier == "thorough" and conflicting(MENU[a], MENU[b])
+            two = (tier == "thorough" and conflicting(MENU[a], MENU[b])) or (sname, a, b) in DEEP
             case = dict(BASE, start_name=sname, start=STARTS[sname], calls=[MENU[a], MENU[b]], mode="enum",
                         max_preempt=2 if two else 1)
             if two:   # split the quadratic enumeration into 16 independent slices
